@@ -14,6 +14,7 @@ import (
 	"goatverif/bed"
 	"goatverif/core"
 	"goatverif/svc"
+	"goatverif/wire"
 )
 
 // C14: finishing an RPC releases everything held for it; state stays bounded.
@@ -24,6 +25,7 @@ type c14Case struct {
 	Ser      bool `json:"serialising"`
 	Cap      int  `json:"link_capacity"`
 	GMP      int  `json:"gomaxprocs"`
+	Scripted bool `json:"scripted_server,omitempty"`
 }
 
 var c14Outcomes = []string{"unary-ok", "unary-error", "unary-cancel", "unary-deadline", "stream-ok", "stream-error", "stream-cancel", "stream-deadline", "stream-server-reset", "stream-early-return", "stream-cancel-abandon"}
@@ -37,10 +39,148 @@ func c14Gen(tier string, seed int64, idx int) c14Case {
 	return c
 }
 
+// c14Scripted: a history of stream calls against a scripted server that makes the abandoning
+// caller's own send side busy (transport back-pressure) or sends an undecodable response; the
+// client's registry and goroutines are sampled after every call.
+func c14Scripted(tier string, seed int64, idx int, c c14Case, res *core.Result) {
+	setGMP(c.GMP)
+	h := bed.NewHooks()
+	h.Install()
+	l := wire.NewLink(0, c.Ser)
+	ctx, cancel := context.WithCancel(context.Background())
+	defer cancel()
+	fp := newFloodPeer(ctx, l)
+	cc := goat.NewClientConn(l.A, "c0", "srv")
+	probe := func() bool {
+		pdone := make(chan error, 1)
+		go func() {
+			_, err := svc.Invoke(context.Background(), cc, "probe", []byte("probe"))
+			pdone <- err
+		}()
+		var perr error
+		got := false
+		st, snap := settle(tier, func() bool {
+			select {
+			case perr = <-pdone:
+				got = true
+			default:
+			}
+			return got
+		})
+		if st == "stuck" {
+			res.ViolateD("rpc-never-returns/after-scripted-abandonment", map[string]any{"goroutines": goatParked(snap)}, "a unary call on the connection never returns: final state reached")
+			return false
+		}
+		return st == "ok" && perr == nil
+	}
+	baseline := -1
+	sample := func(round int, what string) bool {
+		final, snap := quiet(tier)
+		if !final {
+			res.Verdict, res.Note = core.Inconclusive, "no final state at sample point"
+			return false
+		}
+		n := len(snap.Goat())
+		if baseline < 0 {
+			baseline = n
+			return true
+		}
+		reg, regOK := goat.VerifClientRegistrySizeTry(cc)
+		if !regOK {
+			res.ViolateD("client-multiplexer-wedged/"+what, map[string]any{"goroutines": goatParked(snap)}, "round %d: at a quiescent point the client multiplexer's mutex is held by a blocked goroutine (after %s)", round, what)
+			return false
+		}
+		res.Stat("sample_points", 1)
+		res.Stat("scripted_sample_points", 1)
+		if reg != 0 {
+			res.ViolateD("client-registration-leak/"+what, map[string]any{"goroutines": goatParked(snap)}, "round %d: %d calls still registered on the client connection with no RPC in flight (after %s)", round, reg, what)
+			return false
+		}
+		if n != baseline {
+			res.ViolateD("goroutine-leak/"+what, map[string]any{"goroutines": goatParked(snap)}, "round %d: %d goroutines with goat frames at a quiescent point, idle level is %d (after %s)", round, n, baseline, what)
+			return false
+		}
+		return true
+	}
+	ok := probe() && sample(-1, "setup")
+	for round := 0; ok && round < c.Rounds; round++ {
+		mode := []string{"cancel-while-send-blocked-with-unread", "undecodable-response-then-more"}[round%2]
+		mm := 3 + (round/2)%4
+		fp.set(mode, mm)
+		before := fp.openedN()
+		m := svc.NewManualCtx(context.Background())
+		var w Waiter
+		w.Add(1)
+		go func() {
+			defer w.Done()
+			s, err := svc.Open(m, cc, "bidi", "ab", []byte("q"))
+			if err != nil {
+				return
+			}
+			if mode == "cancel-while-send-blocked-with-unread" {
+				for k := 0; k < 50; k++ {
+					if s.Send([]byte("up")) != nil {
+						break
+					}
+				}
+				return
+			}
+			s.Recv() // fails: the caller stops using the stream without cancelling
+		}()
+		quiet(tier)
+		if fp.openedN() == before {
+			res.Verdict, res.Note = core.Inconclusive, "stream open did not reach the scripted server"
+			break
+		}
+		if mode == "cancel-while-send-blocked-with-unread" {
+			if round%4 == 0 {
+				m.Cancel()
+			} else {
+				m.Fire()
+			}
+			awaitTeardownOrFinal(tier, &w)
+			fp.resume()
+		}
+		st, snap := settle(tier, func() bool { return w.Left() == 0 })
+		if st == "stuck" {
+			res.ViolateD("rpc-never-returns/"+mode, map[string]any{"goroutines": goatParked(snap)}, "round %d: the caller's own operation never returns (%s, m=%d)", round, mode, mm)
+			break
+		} else if st != "ok" {
+			res.Verdict, res.Note = core.Inconclusive, "watchdog in scripted round"
+			break
+		}
+		res.Stat("rpcs", 1)
+		res.Evals++
+		res.SetAdd("outcomes", "scripted/"+mode)
+		if !sample(round, mode) {
+			break
+		}
+		if mode == "undecodable-response-then-more" {
+			m.Cancel() // the caller's context ends eventually; nothing may reappear
+		}
+		ok = probe() && sample(round, mode+" + probe")
+	}
+	cancel()
+	l.Kill()
+	left, final := bed.Hygiene(watchdog(tier))
+	bed.Uninstall()
+	h.Fold(res)
+	if !final || len(left) > 0 {
+		res.Retire = true
+	}
+}
+
 func c14Run(tier string, seed int64, idx int) *core.Result {
 	c := c14Gen(tier, seed, idx)
 	r := rng(seed, idx, "c14run")
 	res := &core.Result{Verdict: core.Held, Sample: c, Sig: fmt.Sprintf("%+v/%d", c, idx)}
+	if idx%10 == 9 {
+		c.Scripted = true
+		res.Sample = c
+		res.NonTrivial = true
+		c14Scripted(tier, seed, idx, c, res)
+		return res
+	}
 	setGMP(c.GMP)
 	h := bed.NewHooks()
 	if idx%2 == 0 {
@@ -306,12 +446,12 @@ func init() {
 	core.Register(&core.Prop{
 		ID:    "C14",
 		Level: "exploration",
-		Rule:  "each case is one long history on ONE connection: rounds of 1..32 concurrent RPCs with outcomes drawn from {unary ok/error/cancel/deadline, stream ok/error/cancel/deadline/server-reset/early-return/cancel-with-responses-unread-and-never-touched-again} x 3 stream kinds, plus (every 4th round) opens whose transport write fails; after every round the driver waits for a provably final state and samples client registry size, server stream registry size and the number of goroutines with goat frames against the idle level. evaluations = RPCs executed; a case is non-trivial when all 12 outcome classes occurred in its history; distinct = distinct (parameters, seed index).",
+		Rule:  "each case is one long history on ONE connection: rounds of 1..32 concurrent RPCs with outcomes drawn from {unary ok/error/cancel/deadline, stream ok/error/cancel/deadline/server-reset/early-return/cancel-with-responses-unread-and-never-touched-again} x 3 stream kinds, plus (every 4th round) opens whose transport write fails; after every round the driver waits for a provably final state and samples client registry size, server stream registry size and the number of goroutines with goat frames against the idle level. evaluations = RPCs executed; every 10th case is instead a history against a SCRIPTED server on one connection, alternating {caller cancelled / deadline fired while its send is blocked by transport back-pressure with m in 3..6 responses unread} and {first response undecodable, caller stops without cancelling, m-1 more follow}, each followed by a unary probe, sampled the same way. a case is non-trivial when all 12 outcome classes occurred in its history; distinct = distinct (parameters, seed index).",
 		Plan:  func(tier string, seed int64) int { return tierN(tier, 80, 640) },
 		Run:   c14Run,
 		MaxStats: []string{"idle_goat_goroutines"},
 		RequiredStats: func(string) []string {
-			return []string{"sample_points", "failed_opens", "sample_points_after_all_outcomes"}
+			return []string{"sample_points", "failed_opens", "sample_points_after_all_outcomes", "scripted_sample_points"}
 		},
 	})
 }
